@@ -25,6 +25,20 @@ IMPORTS = {
 }
 
 
+def _shm_features(ctx):
+    """feature names declared by the shared crate (its [features] table)"""
+    import re
+    txt = ctx.read('clock-bound-shm/Cargo.toml')
+    m = re.search(r'^\[features\]\s*$(.*?)(^\[|\Z)', txt, re.S | re.M)
+    names = set()
+    if m:
+        for ln in m.group(1).splitlines():
+            mm = re.match(r'^\s*([A-Za-z0-9_-]+)\s*=', ln)
+            if mm and mm.group(1) != 'default':
+                names.add(mm.group(1))
+    return names
+
+
 def run(ctx, chk):
     fb = ctx.facts()
     chk.explanation = ('Composition clauses only. W1: each field of every published record resolves, across handlers, the message '
@@ -110,6 +124,38 @@ def run(ctx, chk):
         chk.ob('C01.W2', 'clock:daemon-and-client-same-monotonic-id', len(d_ids) == 1 and d_ids == c_mono and d_ids <= set(common.MONOTONIC_FAMILY), '',
                'daemon stamps as-of with clock id %s; client measures age with %s (%s)' % (sorted(d_ids), sorted(c_mono, key=str), common.MONOTONIC_FAMILY))
         chk.ob('C01.W2', 'clock:centre-is-realtime', c_real == {common.CLOCK_REALTIME}, '', 'client reads the interval centre from clock id %s' % sorted(c_real, key=str))
+    # W2b: the daemon builds the shared crate with its `writer` feature, the client libraries without it (a whole-workspace
+    # build unifies the features and hides this).  Every item of the shared crate that exists in both configurations must be
+    # the same item: same evaluated constant, same MIR -- so that "the same clock id / layout / formula" really is the same
+    # in the daemon binary and in the client libraries.
+    try:
+        shm_pkg = 'clock-bound-shm'
+        feats = sorted(_shm_features(ctx))
+        cfg_a = ctx.facts_for([shm_pkg])
+        cfg_b = ctx.facts_for([shm_pkg], features=','.join(feats)) if feats else None
+    except Exception as e:      # noqa
+        cfg_a = cfg_b = None
+        chk.ob('C01.W2', 'config:shared-crate-analysable-per-feature-set', False, 'clock-bound-shm/Cargo.toml', 'cannot build the shared crate per feature set: %s' % str(e)[:200])
+    if cfg_a is not None and cfg_b is not None:
+        def items(fbx):
+            out = {}
+            for c in fbx.crates:
+                if c.name != common.SHM:
+                    continue
+                for k in c.consts:
+                    out[('const', k['path'])] = {kk: vv for kk, vv in k.items() if kk not in ('span', 'ty', 'file', 'line')}
+                for b in c.bodies:
+                    out[('fn', b.path)] = mir.fmt_body(b)
+            return out
+        ia, ib = items(cfg_a), items(cfg_b)
+        differing = sorted(k for k in ia if k in ib and ia[k] != ib[k])
+        for k in differing[:6]:
+            chk.ob('C01.W2', 'config:shared-item-differs:%s' % k[1].split('::')[-1], False, 'clock-bound-shm/src',
+                   '%s %s is a different item with and without the feature(s) %s: the daemon (built with them) and the client '
+                   'libraries (built without) do not run the same code / use the same value' % (k[0], k[1], feats))
+        chk.ob('C01.W2', 'config:shared-items-identical-across-feature-sets', not differing, 'clock-bound-shm/src',
+               '%d items of the shared crate exist with and without %s; %d differ' % (len([k for k in ia if k in ib]), feats, len(differing)))
+        chk.analysed['call_sites'] += len(ia)
     # ---------------------------------------------------------------- W3 clients evaluate their own snapshot
     ws = wrappers_model.load(fb, chk, 'C01.W3')
     for name, w in ws.items():
